@@ -18,6 +18,12 @@ pub struct Extracted {
     pub dispatch: BTreeMap<String, String>,
     pub required_table: BTreeSet<String>,
     pub debug_gate: BTreeSet<String>,
+    /// request types whose arm in the role table looks at the parameters
+    pub param_dependent: BTreeSet<String>,
+    /// configuration keys `handle_config_set` knows
+    pub config_keys: BTreeSet<String>,
+    /// configuration keys `required_role_for_config_set` singles out
+    pub config_sensitive: BTreeSet<String>,
 }
 
 impl Extracted {
@@ -147,6 +153,39 @@ pub fn extract(repo: &std::path::Path) -> Result<Extracted, String> {
     for (s, e, lit) in string_literals(body) {
         if in_pattern_position(body, s, e) {
             ex.required_table.insert(lit);
+        }
+    }
+    // arms of the role table whose result depends on the parameters: `"x" | "y" => f(params)`
+    {
+        let lits = string_literals(body);
+        let mut from = 0usize;
+        while let Some(rel) = body[from..].find("=>") {
+            let arrow = from + rel;
+            let end = body[arrow..].find('\n').map(|n| arrow + n).unwrap_or(body.len());
+            if body[arrow..end].contains("params") {
+                // the literals of this arm: those between the previous "=>" line end and this arrow
+                let arm_start = body[..arrow].rfind("=>").map(|p| body[p..].find('\n').map(|n| p + n).unwrap_or(p)).unwrap_or(0);
+                for (s0, e0, lit) in &lits {
+                    if *s0 >= arm_start && *e0 < arrow && in_pattern_position(body, *s0, *e0) {
+                        ex.param_dependent.insert(lit.clone());
+                    }
+                }
+            }
+            from = arrow + 2;
+        }
+    }
+    if let Some(body) = fn_body(&text, "handle_config_set") {
+        for (s0, e0, lit) in string_literals(body) {
+            if in_pattern_position(body, s0, e0) && lit.contains('.') && !lit.contains(' ') {
+                ex.config_keys.insert(lit);
+            }
+        }
+    }
+    if let Some(body) = fn_body(&text, "required_role_for_config_set") {
+        for (_, _, lit) in string_literals(body) {
+            if lit.contains('.') && !lit.contains(' ') {
+                ex.config_sensitive.insert(lit);
+            }
         }
     }
     let body = fn_body(&text, "is_debug_request").ok_or("is_debug_request not found in control.rs")?;
@@ -361,7 +400,11 @@ pub fn valid_params(ty: &str) -> Vec<Option<J>> {
         "hmi.descriptor.update" => vec![Some(descriptor_update_params())],
         "hmi.scaffold.reset" => vec![Some(json!({"mode": "reset", "style": "industrial"})), None],
         "hmi.alarm.ack" => vec![Some(json!({"id": "$ALARM"}))],
-        "hmi.write" => vec![Some(json!({"id": super::fixture::HMI_WRITE_ID, "value": false}))],
+        "hmi.write" => vec![
+            Some(json!({"id": super::fixture::HMI_WRITE_ID, "value": false})),
+            Some(json!({"path": super::fixture::HMI_WRITE_ID, "value": false})),
+            Some(json!({"target": super::fixture::HMI_WRITE_ID, "value": false})),
+        ],
         "io.write" => vec![Some(json!({"address": "%IX0.2", "value": "true"}))],
         "io.force" => vec![Some(json!({"address": "%QX0.2", "value": "true"}))],
         "io.unforce" => vec![Some(json!({"address": "%QX0.1"}))],
@@ -464,6 +507,29 @@ pub fn shape_params(ty: &str, shape: &str, r: &mut Reader) -> Option<J> {
             }
             _ => Some(json!({"role": "admin", "control.auth_token": "sneaky", "log.level": "trace"})),
         },
+        "respelt" => match base {
+            Some(J::Object(mut m)) if !m.is_empty() => {
+                let keys: Vec<String> = m.keys().cloned().collect();
+                let k = keys[r.pick(keys.len())].clone();
+                let how = r.pick(N_SPELLINGS);
+                if r.flag() {
+                    // the member name
+                    if let Some(v) = m.remove(&k) {
+                        m.insert(respell(&k, how), v);
+                    }
+                    if r.chance(1, 3) {
+                        m.insert("log.level".into(), json!("debug"));
+                    }
+                } else if let Some(J::String(sv)) = m.get(&k).cloned() {
+                    let nv = if sv.starts_with('$') { format!("{sv}#{how}") } else { respell(&sv, how) };
+                    m.insert(k, J::String(nv));
+                } else if let Some(v) = m.remove(&k) {
+                    m.insert(respell(&k, how), v);
+                }
+                Some(J::Object(m))
+            }
+            other => other,
+        },
         "huge" => {
             let big = match r.pick(4) {
                 0 => json!("x".repeat(100_000)),
@@ -525,8 +591,209 @@ pub fn odd_param_variants(ty: &str) -> Vec<J> {
     out
 }
 
+// ---------------------------------------------------------------------------------------
+// spellings: the role decision and the handler may normalise their input differently
+// ---------------------------------------------------------------------------------------
+
+/// A value `handle_config_set` accepts for `key` and that differs from the fixture's baseline.
+pub fn config_value(key: &str) -> J {
+    match key {
+        "log.level" => json!("debug"),
+        "watchdog.enabled" | "web.enabled" | "web.tls" | "discovery.enabled" | "discovery.advertise"
+        | "mesh.enabled" | "mesh.tls" => json!(true),
+        "watchdog.timeout_ms" => json!(1234),
+        "watchdog.action" => json!("restart"),
+        "fault.policy" => json!("halt"),
+        "retain.save_interval_ms" => json!(777),
+        "retain.mode" => json!("file"),
+        "web.listen" => json!("0.0.0.0:8080"),
+        "web.auth" => json!("token"),
+        "discovery.service_name" => json!("zz"),
+        "discovery.interfaces" | "mesh.publish" => json!(["eth0"]),
+        "mesh.listen" => json!("0.0.0.0:1"),
+        "mesh.subscribe" => json!({"a": "b"}),
+        "mesh.auth_token" => json!("mesh-secret"),
+        "control.auth_token" => json!("fresh-token-2"),
+        "control.debug_enabled" => json!("$OTHERDEBUG"),
+        "control.mode" => json!("$OTHERMODE"),
+        _ => json!(true),
+    }
+}
+
+pub const N_SPELLINGS: usize = 26;
+
+/// Perturbed spellings of a key or string value.
+pub fn respell(s: &str, how: usize) -> String {
+    let cap = |t: &str| -> String {
+        t.split('.')
+            .map(|p| {
+                let mut c = p.chars();
+                match c.next() {
+                    Some(f) => f.to_ascii_uppercase().to_string() + c.as_str(),
+                    None => String::new(),
+                }
+            })
+            .collect::<Vec<_>>()
+            .join(".")
+    };
+    match how % N_SPELLINGS {
+        0 => format!(" {s}"),
+        1 => format!("{s} "),
+        2 => format!(" {s} "),
+        3 => format!("\t{s}"),
+        4 => format!("{s}\t"),
+        5 => format!("\u{a0}{s}"),
+        6 => format!("{s}\u{a0}"),
+        7 => format!("{s}\n"),
+        8 => format!("\r{s}"),
+        9 => s.to_ascii_uppercase(),
+        10 => cap(s),
+        11 => {
+            let mut c = s.chars();
+            match c.next() {
+                Some(f) => f.to_ascii_uppercase().to_string() + c.as_str(),
+                None => String::new(),
+            }
+        }
+        12 => s.replace('.', "\u{ff0e}"),  // fullwidth full stop
+        13 => s.replace('o', "\u{43e}"),   // cyrillic o
+        14 => s.replace('a', "\u{430}"),   // cyrillic a
+        15 => s.replace('.', ".\u{200b}"), // zero width space
+        16 => format!("\u{feff}{s}"),
+        17 => format!("{s}\u{0}"),
+        18 => s.replace('.', "_"),
+        19 => s.replace('.', ".."),
+        20 => format!("{s}."),
+        21 => s.replace('.', " . "),
+        22 => s.replace('_', "-"),
+        23 => format!("\u{2003}{s}\u{2003}"), // em space
+        24 => format!("\u{b}{s}\u{c}"),       // vertical tab / form feed
+        _ => s.to_ascii_lowercase(),
+    }
+}
+
+fn grp(cfg: super::fixture::Cfg, ty: &str, shape: &str, params: Option<J>, raw: Option<String>, creds: &[Cred]) -> GroupCase {
+    GroupCase {
+        cfg,
+        ty: ty.to_string(),
+        schema_of: ty.to_string(),
+        shape: shape.to_string(),
+        params,
+        extra: None,
+        raw_params: raw,
+        creds: creds.to_vec(),
+    }
+}
+
+pub const ROLE_CREDS: &[Cred] = &[Cred::Viewer, Cred::Operator, Cred::Engineer, Cred::Admin];
+
+/// `config.set` requests that name `key` in every way other than the canonical one.
+pub fn config_spelling_cases(cfg: super::fixture::Cfg, key: &str, thorough: bool) -> Vec<GroupCase> {
+    let v = config_value(key);
+    let mut out = Vec::new();
+    let n = if thorough { N_SPELLINGS } else { 7 };
+    for how in 0..n {
+        let k = respell(key, how);
+        if k == key {
+            continue;
+        }
+        let mut m = serde_json::Map::new();
+        m.insert(k.clone(), v.clone());
+        out.push(grp(cfg, "config.set", "key_spelling", Some(J::Object(m.clone())), None, ROLE_CREDS));
+        if thorough && how < 7 {
+            // together with a harmless canonical key
+            m.insert("log.level".into(), json!("debug"));
+            out.push(grp(cfg, "config.set", "key_spelling_mixed", Some(J::Object(m)), None, ROLE_CREDS));
+        }
+    }
+    if !thorough {
+        return out;
+    }
+    let ks = serde_json::to_string(key).unwrap();
+    let vs = v.to_string();
+    let (head, tail) = key.split_once('.').unwrap_or((key, ""));
+    // structure instead of spelling
+    out.push(grp(cfg, "config.set", "key_nested", Some(json!({head: {tail: v.clone()}})), None, ROLE_CREDS));
+    out.push(grp(cfg, "config.set", "key_nested", Some(json!({"params": {key: v.clone()}})), None, ROLE_CREDS));
+    out.push(grp(cfg, "config.set", "key_nested", Some(json!({"config": {key: v.clone()}})), None, ROLE_CREDS));
+    out.push(grp(cfg, "config.set", "value_array", Some(json!({key: [v.clone()]})), None, ROLE_CREDS));
+    out.push(grp(cfg, "config.set", "params_array", Some(json!([[key, v.clone()]])), None, ROLE_CREDS));
+    out.push(grp(cfg, "config.set", "params_string", Some(json!(format!("{{{ks}:{vs}}}"))), None, ROLE_CREDS));
+    // duplicated members (what the request parser keeps is its business; gate and handler
+    // must agree on it)
+    let raws = [
+        format!("{{{ks}:{vs},{ks}:{vs}}}"),
+        format!("{{\"log.level\":\"debug\",{ks}:{vs},\"log.level\":\"debug\"}}"),
+        format!("{{{ks}:null,{ks}:{vs}}}"),
+        format!("{{{ks}:{vs},{ks}:null}}"),
+        // two `params` members
+        format!("{{\"log.level\":\"debug\"}},\"params\":{{{ks}:{vs}}}"),
+        format!("{{{ks}:{vs}}},\"params\":{{\"log.level\":\"debug\"}}"),
+        // escaped spelling of the same key
+        format!("{{\"{}\":{vs}}}", key.replace('.', "\\u002e")),
+        format!("{{\"{}\":{vs}}}", key.replacen('c', "\\u0063", 1).replacen('m', "\\u006d", 1)),
+    ];
+    for raw in raws {
+        out.push(grp(cfg, "config.set", "key_duplicated", Some(json!({"raw": raw.clone()})), Some(raw), ROLE_CREDS));
+    }
+    out
+}
+
+/// Every string member value of the valid parameter objects of `ty`, respelt (blanks, case,
+/// NBSP, look-alikes): a handler that normalises what the role decision compares verbatim.
+pub fn value_spelling_cases(cfg: super::fixture::Cfg, ty: &str) -> Vec<GroupCase> {
+    let mut out = Vec::new();
+    let mut seen = BTreeSet::new();
+    for base in valid_params(ty).into_iter().flatten() {
+        let J::Object(m) = base else { continue };
+        for (k, v) in &m {
+            let J::String(sv) = v else { continue };
+            if sv.starts_with('$') && sv != "$CODE" && sv != "$PAIRID" && sv != "$ALARM" && sv != "$OTHERMODE" {
+                continue;
+            }
+            for how in [0usize, 1, 3, 5, 9, 10, 25] {
+                // placeholders are respelt after they are filled in: mark them
+                let nv = if sv.starts_with('$') {
+                    format!("{sv}#{how}")
+                } else {
+                    respell(sv, how)
+                };
+                if &nv == sv {
+                    continue;
+                }
+                let mut mm = m.clone();
+                mm.insert(k.clone(), J::String(nv));
+                let j = J::Object(mm);
+                if seen.insert(j.to_string()) {
+                    out.push(grp(
+                        cfg,
+                        ty,
+                        "value_spelling",
+                        Some(j),
+                        None,
+                        &[Cred::None, Cred::Viewer, Cred::Operator, Cred::Engineer, Cred::Admin],
+                    ));
+                }
+            }
+            // the member name itself
+            for how in [0usize, 1, 9] {
+                let nk = respell(k, how);
+                let mut mm = m.clone();
+                if let Some(val) = mm.remove(k) {
+                    mm.insert(nk, val);
+                }
+                let j = J::Object(mm);
+                if seen.insert(j.to_string()) {
+                    out.push(grp(cfg, ty, "member_spelling", Some(j), None, ROLE_CREDS));
+                }
+            }
+        }
+    }
+    out
+}
+
 pub const SHAPES: &[&str] = &[
-    "valid", "missing", "null", "wrong_typed", "non_object", "extra_fields", "huge", "nested",
+    "valid", "missing", "null", "wrong_typed", "non_object", "extra_fields", "huge", "nested", "respelt",
 ];
 
 /// Unknown / garbled / case-varied / padded variants of a request type.
@@ -577,6 +844,10 @@ pub struct GroupCase {
     /// extra top-level members of the request object
     #[serde(default)]
     pub extra: Option<J>,
+    /// when set, spliced verbatim as the text after `"params":` (duplicate members, two
+    /// `params` members ...); `params` is then only the readable summary
+    #[serde(default)]
+    pub raw_params: Option<String>,
     pub creds: Vec<Cred>,
 }
 
@@ -617,7 +888,7 @@ pub fn group_from_tape(r: &mut Reader, types: &[String]) -> GroupCase {
         1 => (garble_type(&base_ty, r.pick(14)), base_ty),
         _ => (UNKNOWN_TYPES[r.pick(UNKNOWN_TYPES.len())].to_string(), base_ty),
     };
-    let shape = SHAPES[r.weighted(&[8, 2, 1, 5, 2, 2, 1, 2])];
+    let shape = SHAPES[r.weighted(&[8, 2, 1, 5, 2, 2, 1, 2, 4])];
     let params = shape_params(&schema_of, shape, r);
     let extra = match r.weighted(&[10, 1, 1, 1]) {
         0 => None,
@@ -640,6 +911,7 @@ pub fn group_from_tape(r: &mut Reader, types: &[String]) -> GroupCase {
         shape: shape.to_string(),
         params,
         extra,
+        raw_params: None,
         creds,
     }
 }
